@@ -1732,6 +1732,8 @@ class TenSym(PySym):
                     return sum(len(p_) if isinstance(p_, str) else len(p_.value) for p_ in v.parts)
                 _UNDEF[0] += 1
                 return Rat(Poly.var("len(text#%d)" % _UNDEF[0]))
+            if v is None or isinstance(v, (bool, int, float, Rat)):
+                raise Raised("the analysed path raises: TypeError (object of type %s has no len())" % type(v).__name__, "TypeError('len')")
             raise Unsupported("len of %s" % type(v).__name__)
         if cn in ("range",):
             return list(range(*[self.concrete(self.ex(a)) for a in n.args]))
